@@ -272,6 +272,9 @@ int main(int argc, char** argv) {
     lit = '\n'.join('  std::printf("L %d %d %%d\\n", int(r%d.match(%s)));' % (i, k, i, cxx_str(sv)) for i, k, sv in (literals or []))
     return ('\n'.join(o) + '\n').replace('%(literals)s', lit)
 
+def short(b):
+    return repr(b) if len(b) <= 60 else '%r...(%d bytes)' % (b[:40], len(b))
+
 def judge_ct(args):
     """patterns compiled into regex::expr objects; automaton read through the hook, match() exercised on strings around the language"""
     try:
@@ -303,6 +306,28 @@ def judge_ct(args):
                 for _ in range(6): strs.add(bytes(rnd.randrange(256) for _ in range(rnd.randint(1, 40))))
                 strs.add(rr.sample_string(ast, rnd) + b'\x00'); strs.add(rr.sample_string(ast, rnd)[:-1])
             for s_ in sorted(strs): queries.append((i, s_)); lines.append('M %d %s' % (i, hx(s_)))
+        # members (and near-members) longer than 65535 bytes, pumped along a cycle of the reference automaton
+        npumped = 0
+        for i, (ast, t) in enumerate(items):
+            if npumped >= 3 or prop == 'C12': break
+            ref = refs[i]
+            for _ in range(6):
+                a = rr.sample_string(ast, rnd)
+                seen = {0: 0}; st = 0; dec = None
+                for k, b in enumerate(a):
+                    st = ref.step(st, b)
+                    if st < 0: break
+                    if st in seen: dec = (seen[st], k + 1); break
+                    seen[st] = k + 1
+                if dec is None: continue
+                x, y, z = a[:dec[0]], a[dec[0]:dec[1]], a[dec[1]:]
+                for total in (65536, 65537 + rnd.randrange(3000), 131072 + 5):
+                    reps = (total - len(x) - len(z) + len(y) - 1) // len(y)
+                    w = x + y * reps + z
+                    for s_ in (w, w + bytes([rnd.choice(a)])):
+                        queries.append((i, s_)); lines.append('M %d %s' % (i, hx(s_)))
+                npumped += 1; C['patterns_with_members_beyond_65535_bytes'] += 1
+                break
         rc, text, err, to = run_lines(exe, lines)
         if 'END' not in text:
             out['viol'].append((['site:regex::expr@crash'], 'compile-time built matchers (regex::expr::match) crashed at run time rc=%s: %s' % (rc, ' | '.join(re.findall(r'(ERROR: AddressSanitizer[^\n]*|runtime error:[^\n]*|SUMMARY: [A-Za-z]*Sanitizer[^\n]*)', err)[:3]) or err[-400:]), {'patterns': [p.hex() for p in pats]})); return out
@@ -351,13 +376,13 @@ def judge_ct(args):
             keys = [pattern_key(t)] + ([] if det else [CLASS_KEY]) + ([NESTED_KEY] if det and nested else [])
             got = a[3] == '1'
             if a[3] != a[4] or (len(a) > 11 and (a[10] != a[3] or a[11] != a[3])):
-                out['viol'].append(([pattern_key(t)], 'pattern %r string %r: match() differs between buffer kinds / overloads (buffer; buffer+stream; options+buffer+stream): %s' % (t, s_, [a[3], a[4]] + a[10:12]), {'pattern_hex': t.hex(), 'string_hex': s_.hex()}))
+                out['viol'].append(([pattern_key(t)], 'pattern %r string %s: match() differs between buffer kinds / overloads (buffer; buffer+stream; options+buffer+stream): %s' % (t, short(s_), [a[3], a[4]] + a[10:12]), {'pattern_hex': t.hex(), 'string_hex': s_.hex()}))
             if len(a) > 12 and got and a[12] != '1' and a[10] == '1':
-                out['viol'].append(([pattern_key(t)], 'pattern %r string %r: a successful non-verbose match() wrote to its stream' % (t, s_), {'pattern_hex': t.hex(), 'string_hex': s_.hex()}))
+                out['viol'].append(([pattern_key(t)], 'pattern %r string %s: a successful non-verbose match() wrote to its stream' % (t, short(s_)), {'pattern_hex': t.hex(), 'string_hex': s_.hex()}))
             if int(a[6]) or int(a[7]) or int(a[8]):
-                out['viol'].append(([pattern_key(t), 'site:regex::expr::match@overread'], 'pattern %r string %r: match() read outside the buffer' % (t, s_), {'pattern_hex': t.hex(), 'string_hex': s_.hex()}))
+                out['viol'].append(([pattern_key(t), 'site:regex::expr::match@overread'], 'pattern %r string %s: match() read outside the buffer' % (t, short(s_)), {'pattern_hex': t.hex(), 'string_hex': s_.hex()}))
             if got != want and prop not in ('C12', 'C06'):
-                out['viol'].append((keys, 'regex::expr<%r>.match(%r) = %s but the string %s in the language' % (t, s_, got, 'is' if want else 'is not'),
+                out['viol'].append((keys, 'regex::expr<%r>.match(%s) = %s but the string %s in the language' % (t, short(s_), got, 'is' if want else 'is not'),
                                     {'pattern': t.decode('latin-1'), 'pattern_hex': t.hex(), 'witness_hex': s_.hex(), 'matcher_says': got}))
         return out
     except Exception:
